@@ -24,6 +24,11 @@ CHECKS = {
              ref="5/C15"),
 }
 
+CHECKS["C02"] = dict(text="The real processQueue is a bounded FIFO from every valid ring-buffer state (push appends at the back or is dropped at the limit, pop takes the front, fails exactly when empty); SPL queues the fall-through task before the new one and drops the new one at the process limit; one real RunCycle from an arbitrary invariant state with 1..2 (thorough 3) warriors equals the reference round-robin cycle (same executed (warrior, pc) pairs in loading order, deaths exactly on empty queues, early stop when one survivor remains among several, completed-cycle count, return value) where the task step on both sides is the real exec (C01 fixes what a task does); Run() from any battle in progress ends in the same state as the cycle-by-cycle driver and terminates within maxCycles+1 iterations. Canary: a reference that counts the unfinished cycle must be refuted.",
+             note="Trusted: translator (witness replay), z3 (canary), the reference cycle of DESIGN.md appendix B. Bounds: M in 3..5 (thorough ..8), P 1..2(3), n <= 2 (3), Run: maxCycles <= 3 (5).",
+             ref="5/C02")
+CHECKS = dict(sorted(CHECKS.items()))
+
 NOT_YET = {
 }
 
